@@ -228,6 +228,35 @@ POSITIONS = ([lambda k, op=op: ("bin", op, k, B_) for op in BINOPS] + [lambda k,
     lambda k: ("map", ((k, A_),)), lambda k: ("map", ((A_, k),)), lambda k: ("map", ((A_, B_), (k, C_))), lambda k: ("map", ((A_, B_), (C_, k)))])
 N_KEYWORDS = (2 * len(BINOPS) + 24) * len(KW_NAMES)
 
+# ---- the three literal words in *name* positions ------------------------------------------------------
+# "true, false and null are always literals": where the grammar wants a name (field after '.', root-scoped name,
+# method / function name, message field label) the three words are not names, their look-alikes are.
+NAME_TEMPLATES = ("x.{}", ".{}", "x.{}()", "x.{}(1)", "x.{}.y", "x.y.{}", "M{{{}: 1}}", "{}(1)", ".{}(1)", "has(x.{})", "[x.{}]", "x.{} + 1")   # (not W{f: 1}: there a literal is a receiver, which the grammar allows)
+NAME_WORDS = ("true", "false", "null", "truex", "nullx", "_null", "True", "NULL", "nul", "in", "int")
+N_NAMEPOS = len(NAME_TEMPLATES) * len(NAME_WORDS)
+
+
+def name_position_shard(task):
+    part = runner.Part()
+    for tpl in NAME_TEMPLATES:
+        for w in NAME_WORDS:
+            text = tpl.format(w)
+            literal = w in ("true", "false", "null")
+            r = rparse(text)
+            part.case()
+            part.outcome(f"name-position:{'literal-word' if literal else 'identifier'}:{r[0]}")
+            if r[0] == "X":
+                part.violation("parser-exception", f"parse:name-position:{tpl}:{r[1]}", {"what": "namepos", "text": text}, f"{text!r}: the parser raised {r[1]}")
+            elif literal and r[0] == "T":
+                part.violation("accepted", f"parse:literal-word-accepted-as-a-name:{w}:{tpl.format('W')}", {"what": "namepos", "text": text},
+                               f"{text!r} parses, with {w!r} read as a name; {w} is always a literal")
+            elif not literal and r[0] == "P":
+                part.violation("rejected", f"parse:identifier-rejected:{w}:{tpl.format('W')}", {"what": "namepos", "text": text},
+                               f"{text!r} is rejected at {r[1]}:{r[2]}; {w!r} is an ordinary identifier")
+    part.space("literal words in name positions", N_NAMEPOS, N_NAMEPOS)
+    return part
+
+
 ELEMS = (A_, B_, LIT["1"])
 FIELDS = ("f", "g", "h")
 
@@ -654,7 +683,8 @@ def run(ctx):
     lit_levels = 2
     n_lit = len(literal_texts(lit_levels))
     ctx.run_shards(literal_shard, [(lo, hi, lit_levels) for lo, hi in runner.shards(n_lit, 16)])
-    card = {"literal spellings x positions (dump round trip)": len(LIT_SPELLINGS) * (len(LIT_POSITIONS) + len(LIT_POSITIONS) * (len(LIT_POSITIONS) - 1)), "adjacent-operators": N_ADJACENT, "terms<=1op x all atoms": N_TERMS1, "keyword positions": N_KEYWORDS,
+    ctx.run_shards(name_position_shard, [0])
+    card = {"literal spellings x positions (dump round trip)": len(LIT_SPELLINGS) * (len(LIT_POSITIONS) + len(LIT_POSITIONS) * (len(LIT_POSITIONS) - 1)), "adjacent-operators": N_ADJACENT, "terms<=1op x all atoms": N_TERMS1, "keyword positions": N_KEYWORDS, "literal words in name positions": N_NAMEPOS,
             "container arities": N_CONTAINERS, "whitespace variants": ws_cardinality(maxtok)}
     for n in range(1, kmax + 1):
         card[f"shapes with {n} operators x {len(rots[n])} rotation(s)"] = nshapes(n) * len(rots[n])
